@@ -11,8 +11,10 @@ from common import (NCPU, HarnessError, Rng, cleanup_run_dir, cli_bin, derive, l
                     short_hash, sim_bin, write_evidence, write_replay)
 from procsim import base_env, run_child, split_driver_output
 
-ROUTES = ["lib", "cli", "compile_file", "compile_dir", "compile_exit"]
-IO_ROUTES = ["cli", "compile_file", "compile_dir", "compile_exit"]
+ROUTES = ["lib", "cli", "cli_trace", "compile_file", "compile_dir", "compile_exit"]
+# --ast-only / --railroad stop before code generation: only reading and parsing failures concern them
+CLI_PARSE_ONLY_ROUTES = ["cli_ast", "cli_railroad"]
+IO_ROUTES = ["cli", "cli_trace", "cli_ast", "cli_railroad", "compile_file", "compile_dir", "compile_exit"]
 COMPILE_ROUTES = ["compile_file", "compile_dir", "compile_exit"]
 
 VALID = b"@export\nTop = items:Item {',' items:Item} $;\nItem = @:Num | @:Word;\n@string\n@no_skip_ws\nNum = {'0'..'9'}+;\n@string\n@no_skip_ws\nWord = {'a'..'z'}+;\n"
@@ -22,25 +24,78 @@ RESTRICTIONS = [
     ("field_in_negative_lookahead", "Zz1 = !(x:Zz2) 'a';\nZz2 = 'b';\n", {}),
     ("field_in_positive_lookahead", "Zz1 = &(x:Zz2) 'a';\nZz2 = 'b';\n", {}),
     ("field_in_nested_lookahead", "Zz1 = 'q' !('r' [y:Zz2]) 'a';\nZz2 = 'b';\n", {}),
+    ("field_in_lookahead_without_group", "Zz1 = !x:Zz2 'a';\nZz2 = 'b';\n", {}),
+    ("field_in_lookahead_in_closure", "Zz1 = !({y:Zz2}) 'a';\nZz2 = 'b';\n", {}),
+    ("field_in_lookahead_in_choice", "Zz1 = &('a' | y:Zz2) 'a';\nZz2 = 'b';\n", {}),
+    ("field_in_lookahead_via_include", "Zz1 = !>Zz3 'a';\nZz3 = x:Zz2;\nZz2 = 'b';\n", {}),
+    ("field_in_lookahead_via_grouped_include", "Zz1 = &(>Zz3) 'a';\nZz3 = 'q' [x:Zz2];\nZz2 = 'b';\n", {}),
+    ("field_in_lookahead_via_nested_include", "Zz1 = 'p' !('q' >Zz3) 'a';\nZz3 = {x:Zz2};\nZz2 = 'b';\n", {}),
+    ("field_in_lookahead_via_include_same_name_outside", "Zz1 = x:Zz2 !>Zz3;\nZz3 = x:Zz2;\nZz2 = 'b';\n", {}),
+    ("field_in_lookahead_same_name_outside", "Zz1 = x:Zz2 !(x:Zz2);\nZz2 = 'b';\n", {}),
+    ("override_in_lookahead", "Zz1 = !(@:Zz2) 'a';\nZz2 = 'b';\n", {}),
+    ("field_in_lookahead_in_string_rule_user", "Zz1 = n:Zz4;\n@no_skip_ws\nZz4 = 'a' &(c:Zz2);\nZz2 = 'b';\n", {}),
+    ("override_mixed_in_optional", "Zz1 = @:Zz2 [c:Zz3];\nZz2 = 'b';\nZz3 = 'c';\n", {}),
+    ("override_mixed_via_include", "Zz1 = @:Zz2 >Zz4;\nZz4 = c:Zz3;\nZz2 = 'b';\nZz3 = 'c';\n", {}),
+    ("override_mixed_in_closure", "Zz1 = {c:Zz3} @:Zz2;\nZz2 = 'b';\nZz3 = 'c';\n", {}),
     ("override_mixed_with_named_field", "Zz1 = @:Zz2 c:Zz3;\nZz2 = 'b';\nZz3 = 'c';\n", {}),
     ("override_mixed_in_other_arm", "Zz1 = @:Zz2 | c:Zz3;\nZz2 = 'b';\nZz3 = 'c';\n", {}),
     ("multitype_override_in_optional", "Zz1 = @:Zz2 | [@:Zz3];\nZz2 = 'b';\nZz3 = 'c';\n", {}),
     ("multitype_override_in_closure", "Zz1 = @:Zz2 | {@:Zz3};\nZz2 = 'b';\nZz3 = 'c';\n", {}),
+    ("multitype_override_whole_optional", "Zz1 = [@:Zz2 | @:Zz3];\nZz2 = 'b';\nZz3 = 'c';\n", {}),
+    ("multitype_override_whole_closure", "Zz1 = {@:Zz2 | @:Zz3};\nZz2 = 'b';\nZz3 = 'c';\n", {}),
+    ("multitype_override_twice_in_sequence", "Zz1 = @:Zz2 @:Zz3;\nZz2 = 'b';\nZz3 = 'c';\n", {}),
+    ("multitype_override_missing_in_one_arm", "Zz1 = @:Zz2 | @:Zz3 | 'x';\nZz2 = 'b';\nZz3 = 'c';\n", {}),
+    ("multitype_override_optional_via_include", "Zz1 = @:Zz2 | >Zz4;\nZz4 = [@:Zz3];\nZz2 = 'b';\nZz3 = 'c';\n", {}),
+    ("export_on_grouped_override", "@export\nZz1 = ('x' @:Zz2);\nZz2 = 'b';\n", {}),
+    ("export_position_on_plain_override", "@export\n@position\nZz1 = @:Zz2;\nZz2 = 'b';\n", {}),
+    ("position_on_plain_char_override", "@position\nZz1 = @:char;\n", {}),
     ("export_on_plain_override", "@export\nZz1 = @:Zz2;\nZz2 = 'b';\n", {}),
     ("position_on_plain_override", "@position\nZz1 = @:Zz2;\nZz2 = 'b';\n", {}),
     ("string_with_export", "@export\n@string\nZz1 = 'a';\n", {}),
+    ("string_with_export_reversed", "@string\n@export\nZz1 = 'a';\n", {}),
+    ("string_position_with_export", "@export\n@position\n@string\nZz1 = 'a';\n", {}),
+    ("skipping_whitespace_string_rule", "Zz1 = 'a';\n@string\nWhitespace = {' '};\n", {}),
     ("skipping_whitespace_rule", "Zz1 = 'a';\nWhitespace = ' ';\n", {}),
     ("memoize_without_clone", "@memoize\nZz1 = 'a';\n", {"derives": ["Debug"]}),
     ("memoize_without_clone_empty_derives", "@memoize\nZz1 = 'a';\n", {"derives": []}),
+    ("memoize_leftrec_without_clone", "@memoize\n@leftrec\nZz1 = Zz1 'a' | 'a';\n", {"derives": ["Debug", "PartialEq"]}),
+    ("nonascii_insensitive_in_closure", "Zz1 = {'a' | i\"x\u0151\"};\n", {}),
+    ("nonascii_insensitive_in_lookahead", "Zz1 = !i'\u00df' char;\n", {}),
     ("nonascii_insensitive_literal", "Zz1 = i'\u00e9';\n", {}),
     ("nonascii_insensitive_string", "Zz1 = i'stra\u00dfe';\n", {}),
     ("invalid_codepoint_surrogate", "Zz1 = '\\u{D800}';\n", {}),
     ("invalid_codepoint_surrogate_u4", "Zz1 = '\\uD800';\n", {}),
     ("invalid_codepoint_too_large", "Zz1 = '\\U00110000';\n", {}),
     ("invalid_codepoint_in_range", "Zz1 = 'a'..'\\u{DFFF}';\n", {}),
+    ("invalid_codepoint_U_surrogate", "Zz1 = '\\U0000DABC';\n", {}),
+    ("invalid_codepoint_braces_too_large", "Zz1 = '\\u{110000}';\n", {}),
+    ("invalid_codepoint_in_string", "Zz1 = 'ab\\u{DC00}cd';\n", {}),
+    ("invalid_codepoint_in_char_rule", "@char\nZz1 = 'a' | '\\u{D800}';\n", {}),
+    ("invalid_codepoint_in_char_rule_range", "@char\nZz1 = '\\uD800'..'\\uDFFF';\n", {}),
+    ("invalid_codepoint_insensitive", "Zz1 = i'\\u{DFFF}';\n", {}),
+    ("include_missing_rule_in_optional", "Zz1 = 'a' [>ZzNope];\n", {}),
+    ("include_missing_rule_in_lookahead", "Zz1 = !>ZzNope 'a';\n", {}),
+    ("include_char_rule_in_closure", "Zz1 = {>Zz2};\n@char\nZz2 = 'c';\n", {}),
+    ("include_extern_rule_in_choice", "Zz1 = 'a' | >Zz2;\n@extern(zz_f -> u32)\nZz2;\n", {}),
+    ("include_missing_through_include", "Zz1 = >Zz2;\nZz2 = 'a' >ZzNope;\n", {}),
     ("include_missing_rule", "Zz1 = >ZzNope;\n", {}),
     ("include_char_rule", "Zz1 = >Zz2;\n@char\nZz2 = 'c';\n", {}),
     ("include_extern_rule", "Zz1 = >Zz2;\n@extern(zz_f)\nZz2;\n", {}),
+]
+
+SYNTAX = [
+    ("syntax_double_semicolon", "Zz1 = 'a';;\n"),
+    ("syntax_unclosed_group", "Zz1 = ('a' ;\n"),
+    ("syntax_missing_equals", "Zz1 'a';\n"),
+    ("syntax_missing_semicolon_at_end", "Zz1 = 'a'\n"),
+    ("syntax_unterminated_string", "Zz1 = 'a;\n"),
+    ("syntax_unknown_directive", "@nosuch\nZz1 = 'a';\n"),
+    ("syntax_bad_escape", "Zz1 = '\\q';\n"),
+    ("syntax_trailing_garbage", "Zz1 = 'a';\n)\n"),
+    ("syntax_dangling_choice_bar_then_brace", "Zz1 = 'a' | };\n"),
+    ("syntax_char_rule_with_sequence", "@char\nZz1 = 'a' 'b';\n"),
+    ("syntax_extern_with_body", "@extern(zz_f)\nZz1 = 'a';\n"),
+    ("syntax_short_unicode_escape", "Zz1 = '\\u12';\n"),
 ]
 
 # classes the property's rationale names as reaching panic!/unbounded recursion instead of an error
@@ -98,7 +153,7 @@ def settings_args(route, settings):
     d = settings.get("derives")
     if d is None:
         return []
-    if route == "cli":
+    if route.startswith("cli"):
         a = []
         for x in d:
             a += ["-d", x]
@@ -166,15 +221,16 @@ def execute(cell, d, env, entropy):
     sa = settings_args(cell.route, cell.settings)
     if cell.route == "lib":
         argv = [sim_bin("driver"), "gen", gpath] + sa
-    elif cell.route == "cli":
-        argv = [cli_bin()] + sa + [gpath]
+    elif cell.route.startswith("cli"):
+        flag = {"cli": [], "cli_trace": ["--trace"], "cli_ast": ["--ast-only"], "cli_railroad": ["--railroad"]}[cell.route]
+        argv = [cli_bin()] + flag + sa + [gpath]
     elif cell.route == "compile_dir":
         argv = [sim_bin("driver"), "compile", "--dir", os.path.join(d, "src")] + sa
     else:
         argv = [sim_bin("driver"), "compile", "--file", gpath, "--dest", dest] + sa
         if cell.route == "compile_exit":
             argv.append("--exit")
-    if cell.fmt and cell.route != "lib" and cell.route != "cli":
+    if cell.fmt and cell.route.startswith("compile"):
         argv.append("--format")
     e = dict(env)
     if cell.rustfmt != "present":
@@ -190,9 +246,10 @@ def execute(cell, d, env, entropy):
             info["code"] = rest
             return "ok", c, info
         if marker in ("ERR", "IOERR"):
+            info["lib_error"] = rest[:200].decode(errors="replace")
             return "fail", c, info
         return "crash", c, info
-    if cell.route == "cli":
+    if cell.route.startswith("cli"):
         if c.rc == 0:
             info["code"] = c.out
             return "ok", c, info
@@ -266,7 +323,7 @@ def build_cells(seed, tier, pool):
     hosts = [g for n, g in pool if n.startswith("corpus:") and n.endswith(":m0") and b"hooks" not in n.encode()]
     big = max((g for _, g in pool), key=len)
     # controls: valid grammar, no fault
-    for r in ROUTES:
+    for r in ROUTES + CLI_PARSE_ONLY_ROUTES:
         cells.append(Cell("control_valid", r, "ok", "control", VALID))
         cells.append(Cell("control_valid_big", r, "ok", "control", big))
     for r in COMPILE_ROUTES:
@@ -312,10 +369,17 @@ def build_cells(seed, tier, pool):
                     variants.append(("+host", embed(rng, h, text)))
             for suffix, g in variants:
                 for r in ROUTES:
-                    if r == "cli" and settings.get("derives") == []:
+                    if r.startswith("cli") and settings.get("derives") == []:
                         continue  # the CLI cannot express an empty derive set
                     # restrictions must be rejected; the rationale classes must be answered (code or error), not crash
                     cells.append(Cell(fid + suffix, r, "fail" if kind == "restriction" else "nocrash", kind, g, settings))
+    for fid, text in SYNTAX:
+        variants = [("", text.encode())]
+        for h in rng.sample(hosts, nhosts):
+            variants.append(("+host", embed(rng, h, text)))
+        for suffix, g in variants:
+            for r in ROUTES + CLI_PARSE_ONLY_ROUTES:
+                cells.append(Cell(fid + suffix, r, "fail", "syntax", g))
     # syntax damage: any answer but a crash; all routes must agree on accept/reject
     ndam = 40 if tier == "quick" else 1500
     srcs = [g for n, g in pool]
@@ -323,6 +387,8 @@ def build_cells(seed, tier, pool):
         g = damage(rng, rng.choice(srcs))
         for r in ROUTES:
             cells.append(Cell("damage%04d" % i, r, "consistent", "damage", g))
+        for r in CLI_PARSE_ONLY_ROUTES:
+            cells.append(Cell("damage%04d" % i, r, "nocrash", "damage", g))
     return cells
 
 
@@ -410,6 +476,11 @@ def run(tier, seed, replay_path=None):
             fired_cells.add(cell.key())
             fired_kinds[cell.kind] = fired_kinds.get(cell.kind, 0) + 1
         problem = judge(cell, v, info, controls, groups)
+        if cell.route == "lib" and v == "fail" and cell.kind in ("restriction", "syntax"):
+            # a restriction cell must get past the grammar parser, a syntax cell must not: otherwise the cell tests nothing
+            stage = "codegen error" if cell.kind == "restriction" else "parse error"
+            if not info.get("lib_error", "").startswith(stage):
+                raise HarnessError("cell %s is vacuous: expected a %s, library said: %s" % (cell.fault, stage, info.get("lib_error")))
         if shim_fault and not info["fired"] and cell.expect in ("fail",):
             raise HarnessError("fault of cell %s/%s never fired (shim log empty): %r" % (cell.fault, cell.route, info))
         if problem:
@@ -418,7 +489,7 @@ def run(tier, seed, replay_path=None):
                 known_hit.setdefault((base, cell.route), problem)
             else:
                 viol.append((cell, v, info, problem))
-        if len(samples) < 5 and cell.kind in ("io_read", "io_write", "restriction", "rationale", "damage") and (len(samples) == 0 or samples[-1]["kind"] != cell.kind):
+        if len(samples) < 6 and cell.kind in ("io_read", "io_write", "restriction", "rationale", "syntax", "damage") and (len(samples) == 0 or samples[-1]["kind"] != cell.kind):
             samples.append({"fault": cell.fault, "route": cell.route, "kind": cell.kind, "expect": cell.expect, "shim_faults": cell.faults,
                             "grammar": (cell.grammar or b"").decode("utf-8", "backslashreplace")[:200], "verdict": v, "status": info["status"], "fired": info["fired"][:3]})
     for (f, r), problem in sorted(known_hit.items()):
